@@ -1243,7 +1243,9 @@ fn main() {
                 "extrema_exact",
                 "exact rationals: each coordinate function is built by integrating a chosen derivative (zero; non-zero constant; linear with the root below/at 0/inside/at 1/above [0,1]; double rational root; two rational roots in all location combinations; no real root; plus 1/16 unconstrained small control points, undecidable when the roots are irrational); one case per (curve type, curve, axis): reported inflections must be exact zeros of the oracle's derivative and lie in [0,1]; min/max/bounds parameters must lie in [0,1] and the oracle's polynomial there must equal the exact extremum over {0,1} and the roots in [0,1]; non-trivial = coordinate not constant; distinct by hash of the axis's control coordinates",
             )
-            .with_floor(ne * 4),
+            // the constructed families are small rational spaces: in the thorough tier about a third
+            // of the 10*ne (type, curve, axis) cases are distinct (measured 550k of 1.5M)
+            .with_floor(if cfg.thorough() { ne * 2 } else { ne * 4 }),
             &req_ext_exact,
         );
         let s = run_cases(&cfg, proto, ne, |s, i| four!(extrema_exact, Q, s, i));
